@@ -144,7 +144,8 @@ class Body:
                     if st[0] == "assign" and not st[1]["p"]:
                         d[st[1]["l"]].append(("assign", b, i, st[2]))
                 t = blk["term"]
-                if t["k"] == "call" and not t["dest"]["p"]:
+                if t["k"] == "call" and not t["dest"]["p"] and not t.get("inlined"):
+                    # (an inlined call's destination is defined by the assignment in the callee's return block)
                     d[t["dest"]["l"]].append(("call", b, t))
             self._defs = d
         return self._defs
@@ -384,8 +385,8 @@ def inline_helpers(P, fn, max_depth=3):
          "hkey": F.id + "#inlined"}
     inlined = []
     result_locals = []
-    budget = 12
-    cbudget = 24
+    budget = 64          # small accessors of a private state struct are inlined many times
+    cbudget = 32
 
     def eligible(g):
         G = P.bodies.get(g)
@@ -393,7 +394,9 @@ def inline_helpers(P, fn, max_depth=3):
             return False
         # a private function of the same impl / module, or of the same source file (a free helper next to a trait's
         # provided method, a helper in a sibling impl block)
-        if not g.startswith(prefix) and not (G.krate == F.krate and _file_of(G.span) == _file_of(F.span)):
+        # ... or a generic control-flow helper of the same crate that takes a closure (`fn with_retry(f: impl FnOnce()..)`)
+        takes_fn = any(G.locals[k_].get("callable") == "paramfn" for k_ in range(1, G.arg_count + 1))
+        if not g.startswith(prefix) and not (G.krate == F.krate and (_file_of(G.span) == _file_of(F.span) or takes_fn)):
             return False
         # not recursive
         seen, st = set(), [g]
@@ -412,7 +415,7 @@ def inline_helpers(P, fn, max_depth=3):
 
     depth = {i: 0 for i in range(len(j["blocks"]))}
     i = 0
-    while i < len(j["blocks"]) and budget > 0:
+    while i < len(j["blocks"]) and budget > 0 and len(j["blocks"]) < 6000:
         blk = j["blocks"][i]
         t = blk["term"]
         if t["k"] == "call" and not blk.get("cleanup") and depth.get(i, 0) < max_depth and t.get("target") is not None:
@@ -429,9 +432,17 @@ def inline_helpers(P, fn, max_depth=3):
                     j["vars"].append([name, _shift_place(place, loff)])
                 cont = t["target"]
                 dest = t["dest"]
-                # argument passing
+                # argument passing (a closure handed to a generic parameter keeps its identity in the callee)
                 for k, a in enumerate(t["args"]):
                     blk["stmts"].append(["assign", {"l": loff + 1 + k, "p": []}, {"k": "use", "ops": [a]}, t.get("span", "?")])
+                    apl = op_place(a)
+                    if apl is not None and not apl["p"]:
+                        src = j["locals"][apl["l"]]
+                        if (src.get("callable") or "").startswith("closure:") and loff + 1 + k < len(j["locals"]):
+                            nl = dict(j["locals"][loff + 1 + k])
+                            nl["callable"] = src["callable"]
+                            nl["closures"] = list(src.get("closures", []))
+                            j["locals"][loff + 1 + k] = nl
                 # the call site stays visible to the rules (same callee names); control continues in the callee's blocks
                 nt0 = dict(t)
                 nt0["target"] = boff
@@ -465,6 +476,26 @@ def inline_helpers(P, fn, max_depth=3):
                     if pl is None or pl["p"]:
                         continue
                     cal = j["locals"][pl["l"]].get("callable") or ""
+                    if not cal.startswith("closure:"):
+                        # `&mut f` / a moved copy of a closure-valued local (FnMut::call_mut(&mut f, ..))
+                        cur, hops = pl["l"], 0
+                        while hops < 3:
+                            hops += 1
+                            ds = [(bi, st_) for bi, bb in enumerate(j["blocks"]) for st_ in bb["stmts"]
+                                  if st_[0] == "assign" and st_[1]["l"] == cur and not st_[1]["p"]]
+                            if len(ds) != 1:
+                                break
+                            rv_ = ds[0][1][2]
+                            nxt = rv_.get("place") if rv_["k"] in ("ref", "rawptr") else (
+                                op_place(rv_["ops"][0]) if rv_["k"] == "use" and rv_.get("ops") else None)
+                            if nxt is None or nxt["p"]:
+                                break
+                            cur = nxt["l"]
+                            c2 = j["locals"][cur].get("callable") or ""
+                            if c2.startswith("closure:"):
+                                cal = c2
+                                pl = {"l": cur, "p": []}
+                                break
                     if cal.startswith("closure:") and cal[8:] in P.bodies and len(P.bodies[cal[8:]].blocks) <= 400:
                         cls.append((pl["l"], P.bodies[cal[8:]]))
                 if cls:
@@ -700,6 +731,10 @@ def _thread_results(j, tracked):
                 nt["targets"] = [[v, nid(bb, st2)] for v, bb in tgt]
             else:
                 nt[kind] = nid(tgt, st2)
-        newb.append({"stmts": blk["stmts"], "cleanup": blk.get("cleanup", False), "term": nt})
+        nblk = {"stmts": blk["stmts"], "cleanup": blk.get("cleanup", False), "term": nt}
+        kn = {l: v for l, v in stf if v in ("Ok", "Err")}
+        if kn:
+            nblk["known"] = kn       # variant of Result locals known on entry to this copy of the block
+        newb.append(nblk)
         i += 1
     return newb
